@@ -262,6 +262,10 @@ def call_builtin(I, name, args, kwargs, node, frame):
         if not args:
             return {"list": I.new_list([]), "tuple": VTuple([]), "set": I.new_set([]), "frozenset": I.new_set([])}[name]
         v = args[0]
+        if isinstance(v, VGen):
+            if name == "list":
+                return I.fresh(("list", ("any",)), run.fresh_name("list(gen)"))
+            return VAny(z3.Const(run.fresh_name(f"{name}(gen)"), AnySort), "pyvalue")
         if name in ("list", "tuple") and isinstance(v, VTuple) and v.items and isinstance(v.items[0], VStr) and \
                 str(E.simp(v.items[0].t)).startswith('"#dict'):
             return v        # snapshot of a symbolic dict view: iteration order/keys are fixed when the loop is cut
